@@ -91,7 +91,10 @@ func (this *RGBLuminanceSource) IsCropSupported() bool {
 }
 
 func (this *RGBLuminanceSource) Crop(left, top, width, height int) (LuminanceSource, error) {
-	if left < 0 || top < 0 || width < 0 || height < 0 || this.left+left+width > this.dataWidth || this.top+top+height > this.dataHeight {
+	// the extent tests do not form left+width / top+height: those sums wrap round for sizes near the largest int
+	if left < 0 || top < 0 || width < 0 || height < 0 ||
+		left > this.dataWidth-this.left || width > this.dataWidth-this.left-left ||
+		top > this.dataHeight-this.top || height > this.dataHeight-this.top-top {
 		return nil, errors.New("IllegalArgumentException: Crop rectangle does not fit within image data")
 	}
 	return &RGBLuminanceSource{
